@@ -684,7 +684,13 @@ def expand_spline_script(tab, order, hist, mode=None):
     for j, nv in enumerate(sorted(set(cur.values()))):
         pr, gc, gt = tab.get(order, nv[0], nv[1], mode)
         cmds.append(gen.build_cmd(90 + j, pr, "ctor_" + nv[2], 6))       # same time overload: the inputs are then the same strings
-        cmds += query_cmds(tab, order, 90 + j, nv, kinds, mode)
+        # the twin is asked the same questions in the opposite order (and visits the knots in descending order): answers to read-only
+        # queries do not depend on what was asked before
+        tw = query_cmds(tab, order, 90 + j, nv, kinds[::-1], mode)
+        for c in tw:
+            if c["op"] == "knots":
+                c["desc"] = True
+        cmds += tw
     return cmds
 
 
